@@ -767,6 +767,14 @@ void SolveResultRegistry::AddSolveResults(
 
 void BasicSolver::UseOptionFile(const SolverOption &, fmt::StringRef value) {
   option_file_save_ = value;
+  struct DepthGuard {       // option files can include option files
+    int& depth_;
+    DepthGuard(int& d) : depth_(d) { ++depth_; }
+    ~DepthGuard() { --depth_; }
+  } guard(option_file_depth_);
+  if (option_file_depth_ > 16)
+    MP_RAISE(fmt::format("Option file '{}': "
+                         "option files nested too deeply", value));
   std::ifstream ifs(value);
   if (ifs.good())
     ProcessLines_AvoidComments(ifs,
